@@ -193,6 +193,11 @@ func (q *queue) Put(data []byte) error {
 		return ErrExceedingMessageSizeLimit
 	}
 
+	// the whole append (allocate, write data, publish index/sequence) is one critical section,
+	// so the order of data offsets always matches the order of sequences under concurrent writers.
+	q.rwMutex.Lock()
+	defer q.rwMutex.Unlock()
+
 	dataPageIndex, dataPage, offset, err := q.alloc(dataLength)
 	if err != nil {
 		return err
@@ -350,11 +355,9 @@ func (q *queue) GC() {
 	q.indexPageFct.TruncatePages(indexPageID)
 }
 
-// alloc allocates the data page and offset for message writing
+// alloc allocates the data page and offset for message writing.
+// NOTE: caller must hold the write lock.
 func (q *queue) alloc(dataLen int) (dataPageIndex int64, dataPage page.MappedPage, offset int, err error) {
-	q.rwMutex.Lock()
-	defer q.rwMutex.Unlock()
-
 	// prepare the data pointer
 	if q.messageOffset+dataLen > dataPageSize {
 		// sync previous data page
@@ -379,11 +382,9 @@ func (q *queue) alloc(dataLen int) (dataPageIndex int64, dataPage page.MappedPag
 	return q.dataPageIndex, q.dataPage, messageOffset, nil
 }
 
-// persistMetaOfMessage persists metadata of message after write data
+// persistMetaOfMessage persists metadata of message after write data.
+// NOTE: caller must hold the write lock.
 func (q *queue) persistMetaOfMessage(dataPageIndex int64, dataLen, messageOffset int) error {
-	q.rwMutex.Lock()
-	defer q.rwMutex.Unlock()
-
 	seq := q.appendedSeq.Load() + 1 // append sequence
 	indexPageIndex := seq / indexItemsPerPage
 	if indexPageIndex != q.indexPageIndex {
